@@ -80,6 +80,8 @@ pub struct Local {
     pub want_sample: bool,
     pub verbose: bool,
     pub extra: std::collections::BTreeMap<String, u64>,
+    /// failures of the harness itself (never verdicts)
+    pub machinery: Vec<String>,
     cur_slice: String,
     cur_index: u64,
     nontrivial_marked: bool,
@@ -104,6 +106,7 @@ impl Local {
             want_sample: false,
             verbose: false,
             extra: Default::default(),
+            machinery: vec![],
             cur_slice: String::new(),
             cur_index: 0,
             nontrivial_marked: false,
@@ -141,6 +144,17 @@ impl Local {
         self.violation_sig(kind, kind, detail)
     }
     pub fn violation_sig(&mut self, kind: &str, signature: &str, detail: Value) {
+        // a panic raised inside the harness's own sources is an engine failure, never a verdict
+        let txt = detail.to_string();
+        if (txt.contains("@ ohmc/src/") || txt.contains("@ core/src/")) && !txt.contains("LIBRARY:") {
+            if self.machinery.len() < 5 {
+                self.machinery.push(format!("panic inside the harness (slice {} index {} kind {}): {}", self.cur_slice, self.cur_index, kind, txt.chars().take(400).collect::<String>()));
+            }
+            if self.verbose {
+                println!("  harness panic (not a verdict): {}", txt);
+            }
+            return;
+        }
         self.viol_total += 1;
         if self.verbose {
             println!("  violation kind={} signature={}\n  detail={}", kind, signature, serde_json::to_string_pretty(&detail).unwrap());
@@ -188,6 +202,11 @@ impl Local {
             *self.extra.entry(k).or_insert(0) += v;
         }
         self.viol_total += o.viol_total;
+        for m in o.machinery {
+            if self.machinery.len() < 5 {
+                self.machinery.push(m);
+            }
+        }
         self
     }
 }
@@ -350,6 +369,9 @@ impl Ctx {
                 self.machinery_errors.push(format!("harness panic while replaying: {}", e));
             }
             println!("replay finished: {} violation(s) in this case", loc.violations.len());
+            for m in &loc.machinery {
+                self.machinery_errors.push(m.clone());
+            }
             self.total = Some(match self.total.take() {
                 Some(t) => t.merge(loc),
                 None => loc,
@@ -427,6 +449,9 @@ impl Ctx {
             rep.wall_s
         );
         self.reports.push(rep);
+        for m in &acc.machinery {
+            self.machinery_errors.push(m.clone());
+        }
         self.total = Some(match self.total.take() {
             Some(t) => t.merge(acc),
             None => acc,
@@ -470,6 +495,9 @@ impl Ctx {
             if complete { "complete" } else { "CAPPED" }, rep.wall_s
         );
         self.reports.push(rep);
+        for m in &loc.machinery {
+            self.machinery_errors.push(m.clone());
+        }
         self.total = Some(match self.total.take() {
             Some(t) => t.merge(loc),
             None => loc,
